@@ -97,6 +97,16 @@ check('C19', 'exploration',
       'exhaustive enumeration of an input cube and of both commit schedules; BFS of cell event histories',
       'E5+E4', 'DESIGN.md §4 C19')
 
+check('C07', 'exploration',
+      'Every ordered triple (old, committed, new) of leaf states over 4 keys x 2 values (531441 mapping '
+      'triples, 4096 set triples per family) is resolved by the C and by the pure-Python class and compared '
+      'with an independent three-way-merge specification (exact state equality or BTreesConflictError) and '
+      'with each other (same decision, same reason code); plus six successor-link variants, None/empty '
+      'spellings, BTree/TreeSet wrappers around one embedded leaf, multi-leaf tree states (always refused) '
+      'and malformed shapes (robustness only).',
+      TB, 'exhaustive enumeration of the input cube against an executable specification', 'E5',
+      'DESIGN.md §4 C07')
+
 PENDING = ['C%02d' % i for i in range(1, 20)]
 
 
